@@ -104,6 +104,7 @@ class ExplorerScriptSsbDecompiler:
         self.dungeon_mode_constants = dungeon_mode_constants
         self.forever_start_handler_stack = []
         self.labels_jumped_to = set()
+        self.jump_op_offset_waiting_for_stmnt: int | None = None
         self.vertices_in_progress = {}
 
     def convert(self) -> tuple[str, SourceMap]:
@@ -197,6 +198,8 @@ class ExplorerScriptSsbDecompiler:
 
     def write_stmnt(self, stmnt: str, line: bool = True) -> None:
         """Write a simple single line statement"""
+        # (whatever is written now, it is not the jump statement of a jump opcode that is still waiting for one)
+        self.jump_op_offset_waiting_for_stmnt = None
         if line:
             self.write_line()
         self._line_number += stmnt.count("\n")
@@ -217,6 +220,12 @@ class ExplorerScriptSsbDecompiler:
         self.write_stmnt("hold;")
 
     def write_label_jump(self, label_id: int, previous_op: SsbOperation) -> None:
+        if self.jump_op_offset_waiting_for_stmnt is not None and not (
+            isinstance(previous_op, SsbLabelJump)
+            and isinstance(previous_op.get_marker(), (ForeverContinue, ForeverBreak))
+        ):
+            # The jump statement that is written now is the one of this jump opcode
+            self.source_map_add_opcode(self.jump_op_offset_waiting_for_stmnt)
         # Depending on what the previous operation was, this has to be printed differently
         if not isinstance(previous_op, SsbLabelJump):
             # We need a jump now. We didn't have one but now we will.
@@ -243,8 +252,14 @@ class ExplorerScriptSsbDecompiler:
         assert self.smb is not None
         # TODO: Assumes that all statements start in a new line after indent.
         #       Might need this more flexible.
-        line_number = self._line_number - 1 if on_current_line else self._line_number
-        self.smb.add_opcode(op_offset, line_number, self.indent * NUMBER_OF_SPACES_PER_INDENT)
+        if on_current_line:
+            # (behind what the line already holds and a blank)
+            line_number = self._line_number - 1
+            column = len(self._output) - (self._output.rfind("\n") + 1) + 1
+        else:
+            line_number = self._line_number
+            column = self.indent * NUMBER_OF_SPACES_PER_INDENT
+        self.smb.add_opcode(op_offset, line_number, column)
 
     def source_map_add_position_mark(self, length: int, param: SsbOpParamPositionMarker) -> None:
         assert self.smb is not None
